@@ -49,13 +49,24 @@ def _spec(vid, role, enq):
     return A.VSpec(vid, 7, 0, plug="LEVEL_2", energy=10.0)
 
 
-def h_fifo(r0: int, r1: int, r2: int, t0: int, t1: int, t2: int, tot: int, g: int, q: int) -> bool:
+CASE = int(os.environ.get("VF_CASE", "0"))
+
+
+def h_fifo(r1: int, r2: int, t0: int, t1: int, t2: int, tot: int, g: int, q: int, perm: int) -> bool:
     """
-    pre: 0 <= r0 <= 4 and 0 <= r1 <= 4 and 0 <= r2 <= 4
+    CASE = role of v0 (0..4).  `perm` is the order in which SimulationState.vehicles yields its values (a hash-order
+    stand-in: the result must respect (enqueue time, id) whatever it is).
+    pre: 0 <= r1 <= 4 and 0 <= r2 <= 4 and 0 <= perm <= 2
     pre: 0 <= t0 <= 100000 and 0 <= t1 <= 100000 and 0 <= t2 <= 100000
     post: _
     """
-    roles = (_role(r0), _role(r1), _role(r2))
+    roles = (CASE % 5, _role(r1), _role(r2))
+    order = None
+    for k, o in enumerate(((0, 1, 2), (2, 1, 0), (1, 2, 0))):  # sorted, reversed, rotated
+        if perm == k:
+            order = o
+    if order is None:
+        return True
     if None in roles:
         return True
     enq = (t0, t1, t2)
@@ -65,11 +76,17 @@ def h_fifo(r0: int, r1: int, r2: int, t0: int, t1: int, t2: int, tot: int, g: in
         return True
     sim = w.sim
     env, rec = A.env_with_recorder()
+    sim = sim._replace(vehicles=stubs.MapOrderView(sim.vehicles, tuple(VIDS[i] for i in order)))
 
     sim2 = perform_vehicle_state_updates(sim, env)  # ---- real code
 
     k2 = tuple(A.kind_of_state(sim2.vehicles[v].vehicle_state) for v in VIDS)
     note("roles", roles[0], roles[1], roles[2], "after", k2[0], k2[1], k2[2])
+    if ORACLE == "C01":
+        # the same pass with the vehicles yielded in sorted order gives the same result
+        env_b, _ = A.env_with_recorder()
+        sim_b = perform_vehicle_state_updates(w.sim._replace(vehicles=stubs.MapOrderView(w.sim.vehicles, VIDS)), env_b)
+        return I.deq(I.snap_sim(sim2, True), I.snap_sim(sim_b, True))
     if ORACLE == "C02":
         return I.counts_ok(sim2, w)
     ok = True
@@ -85,14 +102,14 @@ def h_fifo(r0: int, r1: int, r2: int, t0: int, t1: int, t2: int, tot: int, g: in
     return ok and I.counts_ok(sim2, w)
 
 
-def h_fifo_reach(r0: int, r1: int, r2: int, t0: int, t1: int, t2: int, tot: int, g: int, q: int) -> bool:
+def h_fifo_reach(r1: int, r2: int, t0: int, t1: int, t2: int, tot: int, g: int, q: int, perm: int) -> bool:
     """
-    reachability twin (must be refuted): two vehicles queueing, exactly one of them gets the plug
-    pre: 0 <= r0 <= 4 and 0 <= r1 <= 4 and 0 <= r2 <= 4
+    reachability twin (must be refuted; run with CASE 1): two vehicles queueing, exactly one of them gets the plug
+    pre: 0 <= r1 <= 4 and 0 <= r2 <= 4 and 0 <= perm <= 2
     pre: 0 <= t0 <= 100000 and 0 <= t1 <= 100000 and 0 <= t2 <= 100000
     post: _
     """
-    if not (r0 == 1 and r1 == 2 and r2 == 2):
+    if not (r1 == 2 and r2 == 2):
         return True
     specs = tuple(_spec(VIDS[i], (1, 2, 2)[i], (t0, t1, t2)[i]) for i in range(3))
     w = A.build_world(specs, tot, g, q, 3, 0, sim_time=stubs.mk_time(200000), dt=60)
